@@ -99,7 +99,7 @@ ROLES_T = ("low", "near", "mid", "high")
 # to 1 for these materials and G has no effect at all; 5, 20 give n_bm = 1.04, 1.37 (Steel, R_m = 500).
 G_OF_ROLE = {"low": 0.1, "near": 5.0, "mid": 20.0, "high": 2.0}
 G_BY_POSITION = (0.1, 20.0, 5.0)                            # ... for batches of points with equal loads
-G_LABELS = (5, 8, 9, 3)                                     # index labels of the G series (arbitrary by contract)
+G_LABELS = (8, 5, 9, 3)                                     # index labels of the G series (arbitrary by contract; deliberately not ascending)
 
 
 def _ratio(template, role):
